@@ -77,11 +77,11 @@ Proof.
 Qed.
 
 Theorem integrity_records fuel : forall s k st ms recs,
-  0 <= s_chunk st -> trace st ms recs -> (encr c = true -> Forall (fun m => 0 <= m) ms) ->
+  0 <= s_chunk st -> trace st ms recs ->
   sync st k -> no_forgery (s_sqn st) recs s ->
   exists n, stream_records P c nonce fuel k s = firstn n ms.
 Proof.
-  induction fuel as [|f IH]; intros s k st ms recs Hch T NN Sy NF; [exists O; reflexivity|].
+  induction fuel as [|f IH]; intros s k st ms recs Hch T Sy NF; [exists O; reflexivity|].
   cbn [stream_records].
   destruct (first_record (eff_maclen P c) s) as [[[line tag] rest]|] eqn:FR; [|exists O; reflexivity].
   destruct (first_record_decomp _ _ _ _ _ FR) as (Es & Fl & Lt).
@@ -107,12 +107,7 @@ Proof.
       destruct (Hp k (conj Ks Kh)) as (k' & PR & Sy').
       unfold process_record in PR. rewrite authenticated, <- M, bytes_eqb_refl in PR.
       rewrite PR.
-      assert (Em : expect c m = Deliver m).
-      { unfold expect. destruct (encr c) eqn:E; [|reflexivity]. specialize (NN eq_refl). inversion NN; subst.
-        destruct (Z.ltb_spec m 0); [lia|reflexivity]. }
-      rewrite Em.
       destruct (IH rest k' st1 r rr Hc1 T1) as [n Hn].
-      * intros E. specialize (NN E). now inversion NN.
       * exact Sy'.
       * rewrite Hsq. intros a line2 tag2 b q E2 N2 Hq Hm.
         specialize (NFr a line2 tag2 b q E2 N2 ltac:(lia) Hm). cbn [inputs In] in NFr.
@@ -129,7 +124,7 @@ Proof.
         - apply (IHr (q0 + 1)); [lia|assumption|exact X]. }
       apply (G (s_sqn st + 1) rr); [lia|exact NLs|exact I].
   - destruct (Z.eqb_spec (k_sqn k) 1); [|exists O; reflexivity].
-    apply (IH rest _ st ms recs Hch T NN); [split; cbn; assumption|exact NFr].
+    apply (IH rest _ st ms recs Hch T); [split; cbn; assumption|exact NFr].
 Qed.
 
 End Integrity.
